@@ -41,7 +41,8 @@ PROFILE = _gen.profile(max_sessions=3, p_upgrade=0.5, p_sabotage=0.3,
                        handler_actions=['raise'], p_reject=0.15,
                        p_ws_fault=0.0, p_overlap_polls=0.0,
                        p_pong_misbehave=0.1, p_no_monitor=0.0,
-                       undecodable_frames=True, p_stop_polling=0.0)
+                       undecodable_frames=True, p_stop_polling=0.0,
+                       p_raw_bodies=0.25, p_late_open=0.0)
 
 
 def _snap(t):
